@@ -34,11 +34,14 @@ def unpackN (bits : Nat) : (n : Nat) → Nat → List Nat
 def packWord (sel bits : Nat) (vals : List Nat) : Nat :=
   if bits = 0 then sel * 2 ^ 60 else sel * 2 ^ 60 + packN bits vals
 
-/-- `Decode(&dst, v)`: the values of one word (`selector[v>>60].unpack`; selectors 0 and 1 are runs of ones). -/
-def unpackWord (w : Nat) : List Nat :=
-  match selector[w / 2 ^ 60]? with
+/-- `selector[sel].unpack(v, dst)` and `selector[sel].n`: selectors 0 and 1 are runs of ones. -/
+def unpackSel (sel w : Nat) : List Nat :=
+  match selector[sel]? with
   | some (n, bits) => if bits = 0 then List.replicate n 1 else unpackN bits n w
   | none => []   -- unreachable for a 64-bit word (`sel >= 16` is the Go error branch)
+
+/-- `Decode(&dst, v)`: the values of one word (`sel := v >> 60`). -/
+def unpackWord (w : Nat) : List Nat := unpackSel (w / 2 ^ 60) w
 
 /-- `DecodeAll` / `DecodeBytesBigEndian` / the streaming `Decoder`: all values of all words -/
 def decodeWords (ws : List Nat) : List Nat := ws.flatMap unpackWord
@@ -62,17 +65,20 @@ def encodeOne (src : List Nat) : Option (Nat × Nat) :=
       if canPack src n bits then some (packWord sel bits (src.take n), n) else go rest (sel + 1)
   go selector 0
 
-/-- jwilder `EncodeAll`: `Encode` at every position. -/
-def encodeAllJ : (fuel : Nat) → List Nat → Option (List Nat)
+/-- the loop shared by both `EncodeAll`s: `step` packs a prefix of the remaining values into one word -/
+def encodeAllWith (step : List Nat → Option (Nat × Nat)) : (fuel : Nat) → List Nat → Option (List Nat)
   | 0, src => if src.isEmpty then some [] else none
   | fuel + 1, src =>
     if src.isEmpty then some []
-    else match encodeOne src with
+    else match step src with
       | none => none
       | some (w, n) =>
-        match encodeAllJ fuel (src.drop n) with
+        match encodeAllWith step fuel (src.drop n) with
         | none => none
         | some ws => some (w :: ws)
+
+/-- jwilder `EncodeAll`: `Encode` (the `canPack` chain) at every position; `none` = "value out of bounds". -/
+def encodeAllJ (fuel : Nat) (src : List Nat) : Option (List Nat) := encodeAllWith encodeOne fuel src
 
 /-- number of leading ones among the first `lim` values -/
 def leadingOnes : List Nat → Nat → Nat
@@ -100,16 +106,7 @@ def encodeStepI (remaining : List Nat) : Option (Nat × Nat) :=
   else codesLoop remaining numBits 0
 
 /-- influxdb `EncodeAll`; `none` = `ErrValueOutOfBounds`. -/
-def encodeAllI : (fuel : Nat) → List Nat → Option (List Nat)
-  | 0, src => if src.isEmpty then some [] else none
-  | fuel + 1, src =>
-    if src.isEmpty then some []
-    else match encodeStepI src with
-      | none => none
-      | some (w, n) =>
-        match encodeAllI fuel (src.drop n) with
-        | none => none
-        | some ws => some (w :: ws)
+def encodeAllI (fuel : Nat) (src : List Nat) : Option (List Nat) := encodeAllWith encodeStepI fuel src
 
 /-- jwilder streaming `Encoder`: `Write` buffers up to 240 values and emits one word (of as many
     buffered values as `Encode` takes) when the buffer is full; `Bytes` drains the buffer. -/
